@@ -19,6 +19,7 @@ import (
 	"flag"
 	"fmt"
 	"go/ast"
+	"go/parser"
 	"go/printer"
 	"go/token"
 	"go/types"
@@ -28,19 +29,27 @@ import (
 	"strconv"
 	"strings"
 
+	"golang.org/x/tools/go/ast/astutil"
 	"golang.org/x/tools/go/packages"
 )
 
+// perLoopVars: the module's language version is below 1.22, so `for k, v := range`
+// declares ONE k and ONE v per loop, not per iteration; the rewrite must keep that
+// (code that takes the address of, or captures, a range variable depends on it).
+var perLoopVars bool
+
 type stats struct {
-	SyncFiles      []string `json:"sync_files"`
-	MapRangeSites  int      `json:"map_range_sites"`
-	MapRangeFiles  []string `json:"map_range_files"`
-	MapRangeSkip   []string `json:"map_range_uninstrumented"`
-	OsCalls        int      `json:"os_calls"`
-	OsFiles        []string `json:"os_files"`
-	Added          []string `json:"added_files"`
-	GoStmts        []string `json:"go_statements_seen"`
-	PackagesLoaded int      `json:"packages_loaded"`
+	SyncFiles       []string `json:"sync_files"`
+	MapRangeSites   int      `json:"map_range_sites"`
+	MapRangeFiles   []string `json:"map_range_files"`
+	MapRangeSkip    []string `json:"map_range_uninstrumented"`
+	PerIterFallback []string `json:"map_range_sites_with_per_iteration_variables_instead_of_per_loop"`
+	PerLoopVars     bool     `json:"per_loop_range_variables_preserved"`
+	OsCalls         int      `json:"os_calls"`
+	OsFiles         []string `json:"os_files"`
+	Added           []string `json:"added_files"`
+	GoStmts         []string `json:"go_statements_seen"`
+	PackagesLoaded  int      `json:"packages_loaded"`
 }
 
 var osNames = map[string]bool{
@@ -95,6 +104,8 @@ func main() {
 		fatal(err)
 	}
 	st := &stats{}
+	perLoopVars = moduleGoBelow122(*dir)
+	st.PerLoopVars = perLoopVars
 
 	cfg := &packages.Config{
 		Mode: packages.NeedName | packages.NeedFiles | packages.NeedCompiledGoFiles | packages.NeedSyntax | packages.NeedTypes | packages.NeedTypesInfo | packages.NeedImports | packages.NeedDeps,
@@ -307,8 +318,8 @@ var tmpN int
 
 func rewriteRanges(p *packages.Package, f *ast.File, st *stats) int {
 	n := 0
-	ast.Inspect(f, func(nd ast.Node) bool {
-		r, ok := nd.(*ast.RangeStmt)
+	astutil.Apply(f, nil, func(cur *astutil.Cursor) bool {
+		r, ok := cur.Node().(*ast.RangeStmt)
 		if !ok {
 			return true
 		}
@@ -316,16 +327,13 @@ func rewriteRanges(p *packages.Package, f *ast.File, st *stats) int {
 		if t == nil {
 			return true
 		}
-		isMap := false
-		if _, ok := t.Underlying().(*types.Map); ok {
-			isMap = true
+		var mt *types.Map
+		if m, ok := t.Underlying().(*types.Map); ok {
+			mt = m
 		} else if tp, ok := t.(*types.TypeParam); ok {
-			// a type parameter whose core type is a map
-			if u := coreMap(tp); u {
-				isMap = true
-			}
+			mt = coreMap(tp)
 		}
-		if !isMap {
+		if mt == nil {
 			return true
 		}
 		tmpN++
@@ -349,61 +357,180 @@ func rewriteRanges(p *packages.Package, f *ast.File, st *stats) int {
 			return ok && id.Name == "_"
 		}
 		var lhs, rhs []ast.Expr
+		var lhsTypes []types.Type
 		if !isBlank(r.Key) {
 			lhs = append(lhs, r.Key)
 			rhs = append(rhs, &ast.SelectorExpr{X: ev, Sel: ast.NewIdent("K")})
+			lhsTypes = append(lhsTypes, mt.Key())
 		}
 		if !isBlank(r.Value) {
 			lhs = append(lhs, r.Value)
 			rhs = append(rhs, vv)
+			lhsTypes = append(lhsTypes, mt.Elem())
+		}
+		// per-loop variables (language < 1.22): hoist `var k K; var v V` in front of the loop
+		var hoist []ast.Stmt
+		if tok == token.DEFINE && len(lhs) > 0 && perLoopVars {
+			_, labelled := cur.Parent().(*ast.LabeledStmt)
+			okTypes := !labelled
+			var decls []ast.Stmt
+			for i, l := range lhs {
+				ts, ok := typeExpr(p, f, lhsTypes[i])
+				if !ok {
+					okTypes = false
+					break
+				}
+				decls = append(decls, &ast.DeclStmt{Decl: &ast.GenDecl{Tok: token.VAR, Specs: []ast.Spec{
+					&ast.ValueSpec{Names: []*ast.Ident{ast.NewIdent(l.(*ast.Ident).Name)}, Type: ts}}}})
+			}
+			if okTypes {
+				hoist = decls
+				tok = token.ASSIGN
+			} else {
+				st.PerIterFallback = append(st.PerIterFallback, p.Fset.Position(r.Pos()).String())
+			}
 		}
 		if len(lhs) > 0 {
 			pre = append(pre, &ast.AssignStmt{Lhs: lhs, Tok: tok, Rhs: rhs})
-			if tok == token.DEFINE {
+			if r.Tok == token.DEFINE {
 				// keep "declared and not used" away if the body ignores one of them
 				var blanks, vals []ast.Expr
 				for _, l := range lhs {
 					blanks = append(blanks, ast.NewIdent("_"))
-					vals = append(vals, l)
+					vals = append(vals, ast.NewIdent(l.(*ast.Ident).Name))
 				}
 				pre = append(pre, &ast.AssignStmt{Lhs: blanks, Tok: token.ASSIGN, Rhs: vals})
 			}
 		}
-		// a labelled `continue L` / plain continue in the body still targets this loop
+		// a plain `continue` in the body still targets this loop
 		r.Key = ast.NewIdent("_")
 		r.Value = ev
 		r.Tok = token.DEFINE
 		r.X = call
 		r.Body.List = append(pre, r.Body.List...)
+		if hoist != nil {
+			cur.Replace(&ast.BlockStmt{List: append(hoist, r)})
+		}
 		n++
 		return true
 	})
 	return n
 }
 
-func coreMap(tp *types.TypeParam) bool {
-	iface, ok := tp.Constraint().Underlying().(*types.Interface)
+// typeExpr renders a type as an expression valid inside file f (nil,false if some
+// package it mentions is not imported there or a name is not accessible).
+func typeExpr(p *packages.Package, f *ast.File, t types.Type) (ast.Expr, bool) {
+	ok := true
+	q := func(other *types.Package) string {
+		if other == p.Types {
+			return ""
+		}
+		for _, imp := range f.Imports {
+			path, _ := strconv.Unquote(imp.Path.Value)
+			if path == other.Path() {
+				if imp.Name != nil {
+					if imp.Name.Name == "_" || imp.Name.Name == "." {
+						ok = false
+					}
+					return imp.Name.Name
+				}
+				return other.Name()
+			}
+		}
+		ok = false
+		return other.Name()
+	}
+	s := types.TypeString(t, q)
 	if !ok {
+		return nil, false
+	}
+	e, err := parser.ParseExpr(s)
+	if err != nil {
+		return nil, false
+	}
+	// unexported names of other packages cannot be written down
+	bad := false
+	ast.Inspect(e, func(n ast.Node) bool {
+		if se, ok := n.(*ast.SelectorExpr); ok && !ast.IsExported(se.Sel.Name) {
+			bad = true
+		}
+		return true
+	})
+	if bad {
+		return nil, false
+	}
+	stripPos(e)
+	return e, true
+}
+
+func stripPos(e ast.Expr) {
+	ast.Inspect(e, func(n ast.Node) bool {
+		switch x := n.(type) {
+		case *ast.Ident:
+			x.NamePos = token.NoPos
+		case *ast.StarExpr:
+			x.Star = token.NoPos
+		case *ast.ArrayType:
+			x.Lbrack = token.NoPos
+		case *ast.MapType:
+			x.Map = token.NoPos
+		case *ast.InterfaceType:
+			x.Interface = token.NoPos
+		case *ast.StructType:
+			x.Struct = token.NoPos
+		case *ast.FuncType:
+			x.Func = token.NoPos
+		case *ast.ChanType:
+			x.Begin, x.Arrow = token.NoPos, token.NoPos
+		}
+		return true
+	})
+}
+
+func moduleGoBelow122(dir string) bool {
+	data, err := os.ReadFile(filepath.Join(dir, "go.mod"))
+	if err != nil {
 		return false
 	}
-	all := true
-	any := false
+	for _, line := range strings.Split(string(data), "\n") {
+		fs := strings.Fields(line)
+		if len(fs) == 2 && fs[0] == "go" {
+			parts := strings.Split(fs[1], ".")
+			if len(parts) >= 2 {
+				maj, _ := strconv.Atoi(parts[0])
+				min, _ := strconv.Atoi(parts[1])
+				return maj == 1 && min < 22
+			}
+		}
+	}
+	return true // no go directive: language 1.16 semantics
+}
+
+func coreMap(tp *types.TypeParam) *types.Map {
+	iface, ok := tp.Constraint().Underlying().(*types.Interface)
+	if !ok {
+		return nil
+	}
+	var found *types.Map
 	for i := 0; i < iface.NumEmbeddeds(); i++ {
 		et := iface.EmbeddedType(i)
 		switch u := et.(type) {
 		case *types.Union:
 			for j := 0; j < u.Len(); j++ {
-				if _, ok := u.Term(j).Type().Underlying().(*types.Map); ok {
-					any = true
-				} else {
-					all = false
+				m, ok := u.Term(j).Type().Underlying().(*types.Map)
+				if !ok {
+					return nil
 				}
+				if found != nil && !types.Identical(found, m) {
+					return nil
+				}
+				found = m
 			}
 		default:
-			if _, ok := et.Underlying().(*types.Map); ok {
-				any = true
+			if m, ok := et.Underlying().(*types.Map); ok {
+				found = m
 			}
 		}
 	}
-	return any && all
+	return found
 }
